@@ -1312,10 +1312,12 @@ class Reaction(Object):
         if context and reversibly:
             if combine:
                 # Just subtract the metabolites that were added
+                # (a copy: the caller may hand over a dictionary that changes later,
+                # e.g. ``other._metabolites`` of ``self += other``)
                 context(
                     partial(
                         self.subtract_metabolites,
-                        metabolites_to_add,
+                        dict(metabolites_to_add),
                         combine=True,
                         reversibly=False,
                     )
